@@ -157,4 +157,36 @@ class BytesIONB(io.BytesIO):
         return out
 
 
+class ObservedSeekable(object):
+    """Transparent proxy in front of a seekable stream (e.g. the library's CachingStreamWrapper over a raw
+    double) that records what the decoder sees: whether the latest read was short but non-empty."""
+    kind = 'observed'
+
+    def __init__(self, inner):
+        self._inner = inner
+        self.last_short = False
+
+    def seekable(self):
+        return True
+
+    def read(self, n=-1):
+        r = self._inner.read(n)
+        self.last_short = bool(r is not None and n is not None and n >= 0 and 0 < len(r) < n)
+        return r
+
+    def seek(self, off, whence=os.SEEK_SET):
+        return self._inner.seek(off, whence)
+
+    def tell(self):
+        return self._inner.tell()
+
+    @property
+    def markedPosition(self):
+        return self._inner.markedPosition
+
+    @markedPosition.setter
+    def markedPosition(self, value):
+        self._inner.markedPosition = value
+
+
 KINDS = {'seekable': SeekableNB, 'nonseekable': NonSeekableNB, 'bytesio': BytesIONB}
